@@ -329,6 +329,71 @@ def run(chk):
                 chk.violation("C12.latch", cs[0], K.short(cs[0]), f"delivery from {nme}", "a message is delivered outside the validated frame handler")
 
     hunt2_rules(chk, repo, hf)
+    hunt3_rules(chk, repo)
+
+
+def _self_attrs_set(cls, stmts, depth=1):
+    """self attributes assigned by the statements, following calls of own methods one level"""
+    out = set()
+    for st in stmts:
+        for n in ast.walk(st):
+            if isinstance(n, (ast.Assign, ast.AnnAssign, ast.AugAssign)):
+                for t in (n.targets if isinstance(n, ast.Assign) else [n.target]):
+                    if isinstance(t, ast.Attribute) and norm.raw(t.value) == "self":
+                        out.add(t.attr)
+            elif depth and isinstance(n, ast.Call) and isinstance(n.func, ast.Attribute) and norm.raw(n.func.value) == "self" and n.func.attr in cls.methods and n.func.attr != "close":
+                out |= _self_attrs_set(cls, cls.methods[n.func.attr].node.body, depth - 1)
+    return out
+
+
+def hunt3_rules(chk, repo):
+    """Rules written after the third defect hunt (F188, F189)."""
+    for rel, cname in (("aiohttp/web_ws.py", "WebSocketResponse"), ("aiohttp/client_ws.py", "ClientWebSocketResponse")):
+        cls = repo.cls(rel, cname)
+        close, recv = cls.methods["close"], cls.methods["receive"]
+        # ---- C12.errclose: after the reader failed, close() does not read the failed queue again -----------------------------------------------
+        # the queue re-raises the recorded WebSocketError on every read(): close() would take it for a broken handshake (1006, abort) and the
+        # violation's own code (1002 / 1007 / 1009) is lost.  What close() tests before it reads is what receive() has to set first.
+        reads = [a for a in prog.awaits_in(close.node) if isinstance(a.value, ast.Call) and norm.raw(a.value.func).endswith("reader.read")]
+        if not reads:
+            chk.analysis_error(f"C12.errclose: {cname}.close() does not read the peer's CLOSE from the reader")
+            continue
+        skip = set()
+        # (the guards of the enclosing `while True` count: what the loop assigns it assigns on its way out)
+        for l in [l for at in [reads[0]] + list(K.loop_ancestors(reads[0])) for l in PC.units(PC.pc(at, raw=True))]:
+            for a in ast.walk(ast.parse(l.text, mode="eval")):
+                if isinstance(a, ast.Attribute) and norm.raw(a.value) == "self":
+                    skip.add(a.attr)
+        skip -= {"_reader", "_timeout", "_loop"}
+        hs = [h for t in ast.walk(recv.node) if isinstance(t, ast.Try) for h in t.handlers if "WebSocketError" in PC.handler_types(h)]
+        if not hs:
+            chk.analysis_error(f"C12.errclose: {cname}.receive() has no `except WebSocketError`")
+        for h in hs:
+            before = []
+            for st in h.body:
+                if any(isinstance(a, ast.Await) and isinstance(a.value, ast.Call) and norm.raw(a.value.func) == "self.close" for a in ast.walk(st)):
+                    break
+                before.append(st)
+            got = _self_attrs_set(cls, before) & skip
+            if got:
+                chk.ok("C12.errclose", h, f"{cname}.receive(): the WebSocketError handler sets {sorted(got)} before close(), which close() tests before reading the peer's CLOSE")
+            else:
+                chk.violation("C12.errclose", h, "except WebSocketError as exc: ... await self.close(code=exc.code)", f"one of self.{{{', '.join(sorted(skip))}}} set before close()",
+                              f"{cname}.receive() reports a protocol violation and calls close(), which sends the CLOSE and then reads the reader for the peer's CLOSE: the failed queue raises the same error again, close() takes it for a broken handshake - close_code becomes 1006 instead of the violation's 1002/1007/1009 and the transport is aborted, dropping the CLOSE frame that carried the code")
+        # ---- C12.heartbeat.paused: a missing PONG is no verdict while our own side is not reading ----------------------------------------------
+        pn = cls.methods.get("_pong_not_received")
+        if pn is None:
+            chk.analysis_error(f"C12.heartbeat.paused: {cname}._pong_not_received not found")
+            continue
+        verdicts = [c for c, _b in K.exprs(pn, "self._handle_ping_pong_exception($E)")]
+        for v in verdicts:
+            if any(l.text.endswith("._reading_paused") and not l.pos for l in PC.units(PC.pc(v, raw=True))):
+                chk.ok("C12.heartbeat.paused", v, f"{cname}: the peer is declared dead only when reading is not paused by our own flow control")
+            else:
+                chk.violation("C12.heartbeat.paused", v, K.short(v, 70), "if <protocol>._reading_paused: self._reset_heartbeat(); return",
+                              f"{cname} closes the connection (1006) for a missing PONG although its own flow control has paused reading (the application is slow to consume a burst): the PONG sits unread in the socket buffer, the peer is alive")
+        if not verdicts:
+            chk.analysis_error(f"C12.heartbeat.paused: {cname}._pong_not_received does not call _handle_ping_pong_exception")
 
 
 def hunt2_rules(chk, repo, hf):
